@@ -146,7 +146,14 @@ impl Storage {
             }
             let mut block: Block = result.unwrap();
             block.force_loaded = true;
-            block.generate().unwrap();
+            if let Err(error) = block.generate() {
+                // (like a file that does not decode: what is on disk is not a block this node wrote)
+                warn!(
+                    "failed generating the block loaded from file : {:?} : {:?}",
+                    file_name, error
+                );
+                return;
+            }
             debug!("block : {:?} loaded from disk", block.hash.to_hex());
             mempool.add_block(block);
         }
